@@ -286,7 +286,9 @@ class _GlobSplit(Generic[AnyStr]):
         globstar = globstarlong or (self.globstar and value in (b'**', '**'))
         magic = self.is_magic(value)
         if magic:
-            v = _wcparse._compile(value, self.flags)  # type: Pattern[AnyStr] | AnyStr
+            v = _wcparse._compile(
+                value, self.flags & ~(MATCHBASE | _wcparse._EXTMATCHBASE)
+            )  # type: Pattern[AnyStr] | AnyStr
         else:
             v = value
         if globstar and l and l[-1].is_globstar:
